@@ -245,6 +245,12 @@ func runSubject(c *eng.Ctx, s *subject) {
 	}
 	c.Count("subjects_run", 1)
 	c.Count("ctor:"+s.Ctor, 1)
+	if strings.Contains(s.Cfg, "/of-") || strings.Contains(s.Cfg, "/then-") {
+		c.Count("chained_constructor_subjects", 1) // a constructor applied to the result of another one
+	}
+	if strings.Contains(s.Cfg, "Xe") {
+		c.Count("nondefault_error_distribution_subjects", 1)
+	}
 	if s.Deep {
 		runDeep(c, s)
 		return
